@@ -25,7 +25,7 @@ ALL="C01 C02 C03 C04 C05 C06 C07 C08 C09 C10 C11 C12 C13 C14 C15 C16 C17 C18 C19
 # Properties whose monitor also builds and runs as a 32-bit (GOARCH=386) binary: one more variant
 # in the thorough tier (and in the quick tier where it is cheap and the code is full of atomics).
 ARCH386_THOROUGH="C01 C02 C03 C04 C05 C06 C07 C08 C09 C10 C11 C12 C13 C14 C15 C16 C17 C18 C19 C20"
-ARCH386_QUICK="C13 C18"
+ARCH386_QUICK="C06 C13 C18"
 variants() {
   local base; base=$(variants_base "$1" "$2")
   case " $ARCH386_THOROUGH " in *" $1 "*) [ "$2" = thorough ] && base="$base 386" ;; esac
